@@ -119,6 +119,14 @@ def gen_script(ctx, cplx=False):
                 lines.append("act %s %d %d" % (a, M, ket))
                 lines.append("act R%d_ab %d %d" % (t, M, ket))
         lines.append("melem %s %d %d %d" % (b, M, r.below(1 << M), r.below(1 << M)))
+        # an operator object that has already been evaluated is overwritten by assignment and evaluated again
+        # (copy assignment onto a used object: any cached per-state data must follow the new polynomial)
+        if t % 3 == 0:
+            lines.append("%s %s %s %s" % (r.choice(["add", "mul", "sub"]), a, b, c))
+            for ket in range(1 << M):
+                if M <= 3 or r.chance(1, 4):
+                    lines.append("act %s %d %d" % (a, M, ket))
+            lines.append("melem %s %d %d %d" % (a, M, r.below(1 << M), r.below(1 << M)))
         # IndexHamiltonian-style products incl. vanishing prefixes
         m = rand_mono(r, M, 6)
         if r.chance(1, 3) and len(m) >= 2:
